@@ -7,8 +7,9 @@
    Scope (DESIGN C08 G): weight-sum/degree statements carry the hypothesis `all_present` (boundary points on, or the
    sub-box does not touch the global boundary) resp. the modified basis; count/inside hold for every flag. *)
 From Coq Require Import ZArith List QArith Qcanon Bool Arith Lia.
-From SG Require Import Base.QcUtil Model.Tensor Model.LocalGrids Proofs.TensorRule Proofs.LocalGridsBase
-  Proofs.LocalGridsTrap Proofs.LocalGridsSimpson Proofs.LocalGridsMain Proofs.LocalGridsChecker.
+From SG Require Import Base.QcUtil Base.PolyInt Model.Tensor Model.LocalGrids Model.LocalRules Proofs.TensorRule Proofs.LocalGridsBase
+  Proofs.LocalGridsTrap Proofs.LocalGridsSimpson Proofs.LocalGridsMain Proofs.LocalGridsChecker
+  Proofs.QuadPoly Proofs.QuadAffine Proofs.QuadInterp Proofs.QuadCC Proofs.LocalGridsMix Proofs.LocalGridsFix.
 Import ListNotations.
 Open Scope Qc_scope.
 
@@ -178,6 +179,177 @@ Theorem C08_cc_asis_count_ignores_domain_refuted :
 Proof. exact cc_asis_count_ignores_domain. Qed.
 Print Assumptions C08_leja_boundary_off_count_refuted.
 
+(* ======================================================================================================
+   ROUND 2.  (a) every sub-box for the families with irrational nodes, as a THEOREM: their code is a reference
+   rule pushed through an affine map; (b) the interpolatory-rule argument for every n and every node set;
+   (c) closed-form Clenshaw-Curtis / Gauss-Legendre rules of the smallest levels; (d) per-dimension flags/families.
+   ====================================================================================================== *)
+
+(* ---- (a) affine transport: every rule, every degree, every affine map ---- *)
+Theorem C08_affine_exact : forall c w u0 u1 k al be, exact1 c w u0 u1 k ->
+  exact1 (affine_pts al be c) (affine_wts al w) (al * u0 + be) (al * u1 + be) k.
+Proof. exact exact1_affine. Qed.
+Print Assumptions C08_affine_exact.
+
+Theorem C08_transport_exact : forall c w s1 e1 s2 e2 k, s1 <> e1 -> exact1 c w s1 e1 k ->
+  exact1 (transport_pts s1 e1 s2 e2 c) (transport_wts s1 e1 s2 e2 w) s2 e2 k.
+Proof. exact exact1_transport. Qed.
+Print Assumptions C08_transport_exact.
+
+(* the substitution rule for the formal integral behind it: al * int_{u0}^{u1} (al u + be)^j du = int x^j dx *)
+Theorem C08_integral_substitution : forall al be j u0 u1,
+  al * pint (linpow al be j) u0 u1 = mint j (al * u0 + be) (al * u1 + be).
+Proof. exact pint_linpow. Qed.
+Print Assumptions C08_integral_substitution.
+
+(* a reference rule that the verified checker accepted ONCE (tolerance rtol, degrees <= k) is, on EVERY image
+   interval, within |al| * rtol * (a bound computed from the reference rule) of the exact moments *)
+Theorem C08_moments_ok_transport : forall c w u0 u1 k rtol al be j, 0 <= rtol ->
+  moments_ok c w u0 u1 k rtol = true -> (j <= k)%nat ->
+  Qc_abs (moment j (affine_pts al be c) (affine_wts al w) - mint j (al * u0 + be) (al * u1 + be))
+  <= Qc_abs al * (rtol * poly_bound 0 (linpow al be j) c w).
+Proof. exact moments_affine. Qed.
+Print Assumptions C08_moments_ok_transport.
+
+Theorem C08_affine_inside : forall al be u0 u1 c, 0 <= al -> Forall (fun x => u0 <= x /\ x <= u1) c ->
+  Forall (fun x => al * u0 + be <= x /\ x <= al * u1 + be) (affine_pts al be c).
+Proof. exact affine_inside. Qed.
+Print Assumptions C08_affine_inside.
+
+(* the maps written out in the Python are such transports (all reference rules, all degrees, all sub-boxes) *)
+Theorem C08_gauss_legendre_map_exact : forall s e rc rw k, exact1 rc rw (-(1)) 1 k ->
+  exact1 (gl_pts s e rc) (gl_wts false s e rw) s e k.
+Proof. exact gl_map_exact. Qed.
+Print Assumptions C08_gauss_legendre_map_exact.
+
+(* normalize=True divides by the length: the rule then integrates the mean value, NOT the box volume *)
+Theorem C08_gauss_legendre_map_normalized : forall s e rc rw k, exact1 rc rw (-(1)) 1 k ->
+  forall j, (j <= k)%nat -> apply1 (mono j) (gl_pts s e rc) (gl_wts true s e rw) = (1 / (e - s)) * mint j s e.
+Proof. exact gl_map_normalized. Qed.
+Print Assumptions C08_gauss_legendre_map_normalized.
+
+Theorem C08_leja_map_exact : forall s e rc rw k, exact1 rc rw 0 1 k ->
+  exact1 (leja_pts s e rc) (leja_wts s e rw) s e k.
+Proof. exact leja_map_exact. Qed.
+Print Assumptions C08_leja_map_exact.
+
+Theorem C08_clenshaw_curtis_map_exact : forall s e cosv fac k, exact1 (map Qcopp cosv) fac (-(1)) 1 k ->
+  exact1 (cc_pts s e cosv) (cc_wts s e fac) s e k.
+Proof. exact cc_map_exact. Qed.
+Print Assumptions C08_clenshaw_curtis_map_exact.
+
+(* ---- (b) interpolatory quadrature: every n, every list of n distinct nodes, every interval ---- *)
+(* the weights  int l_i  (Lagrange basis polynomials) integrate every polynomial with at most n coefficients exactly *)
+Theorem C08_interpolatory_exact : forall xs s e, NoDup xs -> forall k, (S k <= length xs)%nat ->
+  apply1 (mono k) xs (interp_weights xs s e) = mint k s e.
+Proof. exact interp_exact. Qed.
+Print Assumptions C08_interpolatory_exact.
+
+Theorem C08_interpolatory_exact_polynomials : forall xs s e p, NoDup xs -> (length p <= length xs)%nat ->
+  apply1 (Tensor.peval p) xs (interp_weights xs s e) = pint p s e.
+Proof. exact interp_exact_poly. Qed.
+Print Assumptions C08_interpolatory_exact_polynomials.
+
+(* ... and they are the ONLY weights with that property: a rule on n distinct nodes that is exact to degree n-1
+   (Clenshaw-Curtis, Leja) is determined by its nodes *)
+Theorem C08_interpolatory_unique : forall xs w s e, NoDup xs -> length w = length xs ->
+  (forall k, (S k <= length xs)%nat -> apply1 (mono k) xs w = mint k s e) -> w = interp_weights xs s e.
+Proof. exact interp_unique. Qed.
+Print Assumptions C08_interpolatory_unique.
+
+Theorem C08_exact_iff_interpolatory : forall x xs w s e, NoDup (x :: xs) -> length w = S (length xs) ->
+  (exact1 (x :: xs) w s e (length xs) <-> w = interp_weights (x :: xs) s e).
+Proof. exact exact_iff_interp. Qed.
+Print Assumptions C08_exact_iff_interpolatory.
+
+(* the polynomial fact underneath: at most n coefficients and n distinct roots => the zero polynomial *)
+Theorem C08_polynomial_roots : forall n p xs, (length p <= n)%nat -> NoDup xs -> length xs = n ->
+  (forall x, In x xs -> Tensor.peval p x = 0) -> Forall (fun c => c = 0) p.
+Proof. exact roots_zero. Qed.
+Print Assumptions C08_polynomial_roots.
+
+(* verified checker: the weights the implementation returned are (within rtol) the interpolatory weights of the nodes
+   it returned *)
+Theorem C08_interp_ok_sound : forall xs ws s e rtol, interp_ok xs ws s e rtol = true ->
+  Forall2 (fun w iw => Qc_abs (w - iw) <= rtol * sum_abs (interp_weights xs s e)) ws (interp_weights xs s e).
+Proof. exact interp_ok_sound. Qed.
+Theorem C08_interp_ok_exact : forall x xs ws s e, NoDup (x :: xs) -> interp_ok (x :: xs) ws s e 0 = true ->
+  exact1 (x :: xs) ws s e (length xs).
+Proof. exact interp_ok_exact. Qed.
+Print Assumptions C08_interp_ok_exact.
+
+(* ---- (c) closed forms of the smallest levels (get_1d_weight of ClenshawCurtisGrid1D with its cosines as oracle:
+        K i = cos(pi i/(npwb-1)), C m = cos(2 pi m/(npwb-1)); hypotheses = the true values of these cosines) ---- *)
+Theorem C08_clenshaw_curtis_level0_exact : forall K C s e, K 0%nat = 1 -> K 1%nat = -(1) ->
+  exact1 (cc_rule_pts 2 0 2 K s e) (cc_rule_wts 2 0 2 C s e) s e 1.
+Proof. exact cc_level0_exact. Qed.
+Theorem C08_clenshaw_curtis_level1_exact : forall K C s e, K 0%nat = 1 -> K 1%nat = 0 -> K 2%nat = -(1) -> C 1%nat = -(1) ->
+  exact1 (cc_rule_pts 3 0 3 K s e) (cc_rule_wts 3 0 3 C s e) s e 3.
+Proof. exact cc_level1_exact. Qed.
+Print Assumptions C08_clenshaw_curtis_level1_exact.
+(* level 2 (5 points): the code's weight factors are 1/15, 8/15, 4/5, 8/15, 1/15 ... *)
+Theorem C08_clenshaw_curtis_level2_factors : forall C,
+  C 1%nat = 0 -> C 2%nat = -(1) -> C 3%nat = 0 -> C 4%nat = 1 -> C 6%nat = -(1) ->
+  map (cc_factor 5 C) (seq 0 5) = cc5_weights.
+Proof. exact cc_factors_level2. Qed.
+(* ... and with the inner nodes -+r the moment residuals up to degree 5 are multiples of 2 r^2 - 1 (r = cos(pi/4)) *)
+Theorem C08_clenshaw_curtis_level2_defect : forall r k, (k <= 5)%nat ->
+  apply1 (mono k) (cc5_nodes r) cc5_weights - mint k (-(1)) 1 = (Qc2 * r * r - 1) * cc5_cofactor k r.
+Proof. exact cc_level2_defect. Qed.
+Print Assumptions C08_clenshaw_curtis_level2_defect.
+(* Gauss-Legendre, 2 and 3 points (levels 0 and 1): residuals up to degree 2n-1 are multiples of the node equation *)
+Theorem C08_gauss_legendre_2pt_defect : forall r k, (k <= 3)%nat ->
+  apply1 (mono k) [- r; r] [1; 1] - mint k (-(1)) 1 = (qn 3 * r * r - 1) * gl2_cofactor k r.
+Proof. exact gl2_defect. Qed.
+Theorem C08_gauss_legendre_3pt_defect : forall r k, (k <= 5)%nat ->
+  apply1 (mono k) [- r; 0; r] gl3_weights - mint k (-(1)) 1 = (qn 5 * r * r - qn 3) * gl3_cofactor k r.
+Proof. exact gl3_defect. Qed.
+Print Assumptions C08_gauss_legendre_3pt_defect.
+
+(* ---- (d) a family and a boundary flag PER DIMENSION (Grid.set_boundaries, MixedGrid) ---- *)
+Theorem C08_gridm_count_inside : forall ds, Forall ds_fam_ok ds ->
+  length (gridm_points ds) = prodN (gridm_num_points ds) /\
+  length (gridm_weights ds) = prodN (gridm_num_points ds) /\
+  (Forall (fun d => d_s (ds_dim d) <= d_e (ds_dim d)) ds ->
+   forall p, In p (gridm_points ds) -> Forall2 (fun c d => d_s (ds_dim d) <= c /\ c <= d_e (ds_dim d)) p ds).
+Proof. intros ds H. destruct (gridm_count ds H) as [A B]. split; [exact A | split; [exact B | apply gridm_inside]]. Qed.
+Print Assumptions C08_gridm_count_inside.
+
+Theorem C08_gridm_exact : forall ds exps, Forall ds_ok ds -> Forall2 (fun d k => (k <= ds_degree d)%nat) ds exps ->
+  gridm_integrate_monomial ds exps = box_moment_ds ds exps.
+Proof. exact gridm_exact. Qed.
+Print Assumptions C08_gridm_exact.
+
+Theorem C08_gridm_weights_sum : forall ds, Forall ds_ok ds -> sumQ (gridm_weights ds) = box_volume (map ds_dim ds).
+Proof. exact gridm_weights_sum. Qed.
+Print Assumptions C08_gridm_weights_sum.
+
+(* ---- (e) the proposed repairs on the model (fixes/C08-level0-onesided-endpoint.patch, fixes/C08-leja-boundary-off-count.patch) ---- *)
+(* with the remaining END POINT at level 0 the boundary-off clause holds for EVERY level and sub-box
+   (for the code as it is: C08_trap_boundary_off_level0_refuted) *)
+Theorem C08_fix_trap_boundary_off_every_level : forall x, dim_ok x ->
+  combine (eq_points_fx FTrap false x) (eq_weights_fx FTrap false x)
+  = filter (keep_interior (d_a x) (d_b x)) (combine (eq_points true x) (eq_weights FTrap true x)).
+Proof. exact trap_boundary_off_fx. Qed.
+Print Assumptions C08_fix_trap_boundary_off_every_level.
+
+Theorem C08_fix_count_inside : forall f bnd x, f <> FSimpsonAsIs ->
+  length (eq_points_fx f bnd x) = eq_np bnd x /\ length (eq_weights_fx f bnd x) = eq_np bnd x /\
+  (d_s x <= d_e x -> Forall (fun p => d_s x <= p /\ p <= d_e x) (eq_points_fx f bnd x)).
+Proof. exact fx_count_inside. Qed.
+
+(* the repair touches nothing else: every other theorem of this file carries over *)
+Theorem C08_fix_conservative : forall f bnd x, ~ (bnd = false /\ d_level x = 0%nat /\ xorb (d_tl x) (d_tr x) = true) ->
+  eq_points_fx f bnd x = eq_points bnd x /\ eq_weights_fx f bnd x = eq_weights f bnd x.
+Proof. exact fx_conservative. Qed.
+Print Assumptions C08_fix_conservative.
+
+(* Leja with the sub-box dependent count: the slice of the border logic has the announced length for every flag *)
+Theorem C08_fix_leja_slice_length : forall bnd a b s e l,
+  let '(np, _, _, _, len) := leja_info_fx bnd a b s e l in len = np.
+Proof. exact leja_fx_slice_length. Qed.
+Print Assumptions C08_fix_leja_slice_length.
+
 (* ---- non-vacuity ---- *)
 Definition ex_dims : list dim1 :=
   [ mkdim (-3) 6 (-3#4) (3#2) 3;      (* interior sub-box of [-3,6], level 3 *)
@@ -224,3 +396,56 @@ Example C08_checker_discriminates :
   moments_ok [Q2Qc 0; Q2Qc (1#2); Q2Qc 1] [Q2Qc (1#6); Q2Qc (2#3); Q2Qc (1#6)] (Q2Qc 0) (Q2Qc 1) 4 (Q2Qc (1#1000)) = false /\
   moments_ok [Q2Qc 0; Q2Qc (1#2); Q2Qc 1] [Q2Qc (1#4); Q2Qc (1#2); Q2Qc (1#4)] (Q2Qc 0) (Q2Qc 1) 2 (Q2Qc (1#1000)) = false.
 Proof. vm_compute. repeat split. Qed.
+
+(* ---- round 2 non-vacuity ---- *)
+(* interpolatory weights of the (non-equidistant) nodes 0, 1/3, 1 on [0,1] are 0, 3/4, 1/4 and integrate x^2 exactly *)
+Example C08_nonvacuous_interpolatory :
+  let xs := [Q2Qc 0; Q2Qc (1#3); Q2Qc 1] in
+  NoDup xs /\ map this (interp_weights xs (Q2Qc 0) (Q2Qc 1)) = [0; 3#4; 1#4]%Q /\
+  apply1 (mono 2) xs (interp_weights xs (Q2Qc 0) (Q2Qc 1)) = Q2Qc (1#3) /\
+  interp_ok xs [Q2Qc 0; Q2Qc (3#4); Q2Qc (1#4)] (Q2Qc 0) (Q2Qc 1) (Q2Qc 0) = true /\
+  interp_ok xs [Q2Qc (1#6); Q2Qc (2#3); Q2Qc (1#6)] (Q2Qc 0) (Q2Qc 1) (Q2Qc (1#100)) = false.
+Proof.
+  cbv zeta. split; [|vm_compute; repeat split].
+  repeat constructor; cbn [In]; intros H; repeat (destruct H as [H | H]; try discriminate H); try exact H.
+Qed.
+
+(* Simpson's rule on [-1,1] carried to [1/4, 3/2] by the Gauss-Legendre map of the code: hypotheses met, degree 3 *)
+Example C08_nonvacuous_transport :
+  let rc := [Q2Qc (-1); Q2Qc 0; Q2Qc 1] in let rw := [Q2Qc (1#3); Q2Qc (4#3); Q2Qc (1#3)] in
+  exact1 rc rw (-(1)) 1 3 /\
+  map this (gl_pts (Q2Qc (1#4)) (Q2Qc (3#2)) rc) = [1#4; 7#8; 3#2]%Q /\
+  apply1 (mono 3) (gl_pts (Q2Qc (1#4)) (Q2Qc (3#2)) rc) (gl_wts false (Q2Qc (1#4)) (Q2Qc (3#2)) rw)
+  = mint 3 (Q2Qc (1#4)) (Q2Qc (3#2)) /\ mint 3 (Q2Qc (1#4)) (Q2Qc (3#2)) <> 0.
+Proof.
+  cbv zeta. split; [|split; [|split]].
+  - exact cc_ref_level1.
+  - vm_compute. reflexivity.
+  - apply (gl_map_exact _ _ _ _ 3 cc_ref_level1). lia.
+  - vm_compute. congruence.
+Qed.
+
+(* the floats numpy/math return for the irrational nodes satisfy the node equations to 2^-50:
+   leggauss(2)[1] = 1300077228592327/2^51, leggauss(3)[2] = 872118317739593/2^50, cos(pi/4) = 6369051672525773/2^53 *)
+Example C08_nonvacuous_node_equations :
+  let r2 := Q2Qc (1300077228592327 # 2251799813685248) in
+  let r3 := Q2Qc (872118317739593 # 1125899906842624) in
+  let rc := Q2Qc (6369051672525773 # 9007199254740992) in
+  Qc_leb (Qc_abs (qn 3 * r2 * r2 - 1)) (Q2Qc (1 # 1125899906842624)) = true /\
+  Qc_leb (Qc_abs (qn 5 * r3 * r3 - qn 3)) (Q2Qc (1 # 1125899906842624)) = true /\
+  Qc_leb (Qc_abs (Qc2 * rc * rc - 1)) (Q2Qc (1 # 1125899906842624)) = true.
+Proof. vm_compute. repeat split. Qed.
+
+(* per-dimension flags: dimension 1 with boundary points (interior sub-box), dimension 2 modified basis without *)
+Example C08_nonvacuous_gridm :
+  let ds := [(FSimpson, true, mkdim (-3) 6 (-3#4) (3#2) 3); (FTrapMod, false, mkdim 0 1 (1#2) 1 2)] in
+  Forall ds_ok ds /\ Forall ds_fam_ok ds /\ length (gridm_points ds) = 36%nat /\
+  gridm_integrate_monomial ds [3; 1]%nat = box_moment_ds ds [3; 1]%nat /\ box_moment_ds ds [3; 1]%nat <> 0.
+Proof.
+  cbv zeta. split; [|split; [|split; [|split]]].
+  - repeat constructor; try (vm_compute; lia).
+  - repeat constructor; discriminate.
+  - vm_compute. reflexivity.
+  - apply gridm_exact; repeat constructor; try (vm_compute; lia).
+  - vm_compute. congruence.
+Qed.
